@@ -120,7 +120,7 @@ def _behave(beh: List[Any], args: tuple):
     if b == "errv":
         return CELEvalError("host function error value")
     if b == "raise":
-        raise {"ValueError": ValueError, "TypeError": TypeError, "KeyError": KeyError, "AttributeError": AttributeError,
+        raise {"UnicodeError": UnicodeError, "ValueError": ValueError, "TypeError": TypeError, "KeyError": KeyError, "AttributeError": AttributeError,
                "IndexError": IndexError, "ZeroDivisionError": ZeroDivisionError, "RuntimeError": RuntimeError}[beh[1]]("host")
     if b == "errneg":
         return CELEvalError("negative") if first < 0 else celtypes.IntType(beh[1] + first)
@@ -325,7 +325,7 @@ def s_behave(beh, args):
     if b == "errv":
         return ERRV
     if b == "raise":
-        if beh[1] in ("ValueError", "TypeError"):
+        if beh[1] in ("ValueError", "TypeError", "UnicodeError"):
             return ERRR
         raise Unspecified("host function raises " + beh[1])     # outside C14's statement (D21 is C04's)
     if b == "errneg":
@@ -830,6 +830,29 @@ class C14(Prop):
                         {"runner": r2, "style": "N", "fns": [], "expr": probe},
                         {"runner": r2, "style": style, "fns": fns, "expr": e},
                         {"runner": r1, "style": "D", "fns": shadow[:1], "expr": probe}]})
+        # known findings, sampled on purpose (so that a *change* in them is noticed): D42 map keeps error values, D43 direct functions
+        gv = {"key": "g", "ckind": "nested", "beh": ["errv"], "pyname": "g"}
+        gn = {"key": "g", "ckind": "lambda", "beh": ["errneg", 10], "pyname": "g"}
+        fo = {"key": "f", "ckind": "mod", "beh": ["sum", 100], "pyname": "f"}
+        pv = {"key": "p", "ckind": "obj", "beh": ["errv"], "pyname": "p"}
+        for fns, e in [([gv, fo], ["map", L(1, 2), ["call", "g", [["v", 0]]]]),
+                       ([gn, fo], ["map", L(1, -1, 2), ["meth", "g", ["v", 0], []]]),
+                       ([pv, fo], ["map", L(1, 2), ["or", ["call", "p", [["v", 0]]], B(False)]]),
+                       ([gn, fo], ["map", L(3, 4), ["call", "g", [["v", 0]]]])]:
+            for style in ("L", "D"):
+                cases += both_runners("d42", style, fns, e)
+        fd = {"key": "f", "ckind": "ev", "beh": ["sum", 100], "pyname": "f"}
+        for fns, e in [([fd, gv], ["call", "f", [["call", "g", [I(1)]]]]), ([fd, gv], ["meth", "f", ["call", "g", [I(1)]], [I(2)]]),
+                       ([fd, gn], ["call", "f", [I(1), ["call", "g", [I(-1)]]]]), ([fd, gn], ["call", "f", [I(1), ["call", "g", [I(1)]]]]),
+                       ([fd, pv], ["call", "f", [["or", ["call", "p", []], B(False)]]]),
+                       ([fd, gv], ["or", ["lt", ["call", "f", [["call", "g", [I(1)]]]], I(0)], B(True)])]:
+            for style in ("L", "D"):
+                cases += both_runners("d43", style, fns, e)
+        # a ValueError subclass raised by the host function
+        us = {"key": "f", "ckind": "nested", "beh": ["raise", "UnicodeError"], "pyname": "f"}
+        for e in [["call", "f", [I(1)]], ["or", ["lt", ["call", "f", [I(1)]], I(0)], B(True)], ["call", "g", [["call", "f", []]]],
+                  ["cond", B(False), ["call", "f", [I(1)]], I(3)], ["all", L(1, 2), ["lt", ["meth", "f", ["v", 0], []], I(0)]]]:
+            cases += both_runners("subclass", "D", [us, {"key": "g", "ckind": "mod", "beh": ["sum", 7]}], e)
         # callables that cannot be bound by name in a list (no __name__): the model predicts the constructor error
         for ck in ("obj", "partial"):
             cases += both_runners("noname", "L", [{"key": "f", "ckind": ck, "beh": ["sum", 1]}], ["call", "f", [I(1)]])
